@@ -128,7 +128,12 @@ pub fn model_edit(doc: &Doc, tree: &RTree, selected: &[usize], frag: &[Node]) ->
 const FRAG_TEXTS: &[&str] = &["new", "x y", "\u{e9}\u{1d4b3}", " ", "a]b", "1 > 0", "q'q", "d\"d", "-", "v"];
 
 fn gen_fragment(r: &mut Rng, kind: usize) -> (Vec<Node>, &'static str) {
-    let leaf = |r: &mut Rng, n: &str| Node::Elem(Elem { local: n.into(), attrs: if r.chance(1, 2) { vec![Attr { prefix: None, local: "k".into(), value: vec![APiece::Text(r.pick_s(FRAG_TEXTS).replace('"', "").to_string())] }] } else { vec![] }, children: if r.chance(1, 2) { vec![Node::Text(r.pick_s(FRAG_TEXTS).to_string())] } else { vec![] }, ..Default::default() });
+    let leaf = |r: &mut Rng, n: &str| Node::Elem(Elem { local: n.into(), attrs: if r.chance(1, 2) { vec![Attr { prefix: None, local: "k".into(), value: if r.chance(1, 3) {
+            // references inside the attribute value of the replacement (white-space character references are a recorded finding)
+            let mut v = vec![APiece::Text("a".into())];
+            for _ in 0..r.range(1, 3) { v.push(match r.below(5) { 0 => APiece::EntRef("lt".into()), 1 => APiece::EntRef("amp".into()), 2 => APiece::EntRef("quot".into()), 3 => APiece::CharRef(*r.pick(&['\u{e9}', '<', '&', 'A', '\'']), r.chance(1, 2)), _ => APiece::Text(r.pick_s(&["b", "'", " c", ">"]).to_string()) }); }
+            v
+        } else { vec![APiece::Text(r.pick_s(FRAG_TEXTS).replace('"', "").to_string())] } }] } else { vec![] }, children: if r.chance(1, 2) { vec![Node::Text(r.pick_s(FRAG_TEXTS).to_string())] } else { vec![] }, ..Default::default() });
     match kind % 9 {
         0 => (vec![], "empty"),
         1 => (vec![Node::Text(r.pick_s(FRAG_TEXTS).to_string())], "text"),
@@ -334,7 +339,8 @@ fn selected_indexes(tree: &RTree, ast: &xp::Expr, ns: &[(String, String)]) -> Ve
 fn xq_output_check(doc: &Doc, tree: &RTree, exp: &Outcome, stdout: &str) -> Option<(String, String)> {
     match exp {
         Outcome::Bool(b) => if stdout.trim_end_matches('\n') == if *b { "true" } else { "false" } { None } else { Some(("wrong-boolean".into(), format!("expected {}", b))) },
-        Outcome::Num(n) => { let t = stdout.trim(); let got: f64 = match t { "inf" | "Infinity" => f64::INFINITY, "-inf" | "-Infinity" => f64::NEG_INFINITY, "NaN" => f64::NAN, _ => match t.parse() { Ok(v) => v, Err(_) => return Some(("number-not-printed".into(), format!("{:?}", t))) } }; if (got.is_nan() && n.is_nan()) || got == *n { None } else { Some(("wrong-number".into(), format!("expected {}", n))) } }
+        // the scalar is printed as string() converts it; the recorded finding "-0 is printed as -0" (C05-neg-zero-string) is admitted
+        Outcome::Num(n) => { let t = stdout.strip_suffix('\n').unwrap_or(stdout); let want = xp::num_to_str(*n); if t == want || (*n == 0.0 && n.is_sign_negative() && t == "-0") { None } else { Some(("wrong-number".into(), format!("expected {:?} observed {:?}", want, t))) } }
         Outcome::Str(s) => if stdout.strip_suffix('\n') == Some(s.as_str()) { None } else { Some(("wrong-string".into(), format!("expected {:?}", s))) },
         Outcome::Err(e) => Some(("value-where-error-expected".into(), e.clone())),
         Outcome::Nodes(locs) => {
